@@ -248,11 +248,21 @@ pub fn install_panic_hook() {
 }
 
 /// Result of running one API call under the outcome classifier (M4).
-#[derive(Debug, Clone, PartialEq, Eq)]
+#[derive(Clone, PartialEq, Eq)]
 pub enum Out<T> {
     Val(T),
     /// unwinding ("controlled") panic, with its source location (evidence only)
     Panic(String),
+}
+
+// panic sites/messages are evidence only and never part of a comparison
+impl<T: core::fmt::Debug> core::fmt::Debug for Out<T> {
+    fn fmt(&self, f: &mut core::fmt::Formatter<'_>) -> core::fmt::Result {
+        match self {
+            Out::Val(v) => write!(f, "Val({:?})", v),
+            Out::Panic(_) => write!(f, "Panic"),
+        }
+    }
 }
 
 impl<T> Out<T> {
@@ -305,6 +315,7 @@ pub enum Placement {
 }
 
 pub static CURRENT_CASE: AtomicU64 = AtomicU64::new(u64::MAX);
+pub static CURRENT_POS: AtomicU64 = AtomicU64::new(u64::MAX);
 
 pub struct Violation {
     pub sig: String,
